@@ -254,7 +254,7 @@ func genOpt6(r *Rng, code int, depth int, loose bool) dhcpv6.Option {
 		return o
 	case 5:
 		o := &dhcpv6.OptIAAddress{IPv6Addr: ip6(r), PreferredLifetime: dur(r), ValidLifetime: dur(r)}
-		o.Options.Options = genSubOpts(r, depth, loose, []int{13, 201})
+		o.Options.Options = genSubOpts(r, depth, loose, []int{13, 13, 201, 5, 3, 26})
 		return o
 	case 6:
 		n := r.Range(0, 8)
@@ -338,7 +338,7 @@ func genOpt6(r *Rng, code int, depth int, loose bool) dhcpv6.Option {
 			}
 			o.Prefix = &net.IPNet{Mask: net.CIDRMask(r.Pick([]int{lo, 1, 48, 56, 64, 127, 128, r.Range(lo, 128)}), 128), IP: ip6(r)}
 		}
-		o.Options.Options = genSubOpts(r, depth, loose, []int{13, 202})
+		o.Options.Options = genSubOpts(r, depth, loose, []int{13, 13, 202, 25, 3, 26, 5})
 		return o
 	case 32:
 		return dhcpv6.OptInformationRefreshTime(dur(r))
@@ -903,7 +903,28 @@ func genNameWire6(r *Rng) []byte {
 	return b
 }
 
+// genLongDUID6: client / server identifiers whose DUID is longer than the 128 octets RFC
+// 8415 allows, at the lengths a narrowed counter would wrap at (129, 255..258, 260, 300,
+// 384, 385, 516, 640): rejected, every one (seeded change C05-18: the limit compared
+// modulo 256).
+func genLongDUID6(r *Rng) []byte {
+	n := r.Pick([]int{129, 130, 255, 256, 257, 258, 260, 270, 300, 384, 385, 512, 516, 640, 1000})
+	typ := r.Pick([]int{1, 2, 3, 3, 4, 5, 255})
+	v := append([]byte{0, byte(typ)}, r.Bytes(n)...)
+	b := []byte{byte(r.Range(1, 11)), 3, 3, 3}
+	code := r.Pick([]int{1, 2})
+	b = append(b, 0, byte(code), byte(len(v)>>8), byte(len(v)))
+	b = append(b, v...)
+	if r.Bool() {
+		b = append(b, 0, 8, 0, 2, 0, 1)
+	}
+	return b
+}
+
 func genWire6(r *Rng) ([]byte, string) {
+	if r.Chance(1, 60) {
+		return genLongDUID6(r), "long-duid"
+	}
 	if r.Chance(1, 14) {
 		return genNameWire6(r), "name-wire-in-option"
 	}
